@@ -1429,6 +1429,8 @@ class Simulator:
     self.procs = []
     self.ffprocs = []
     self._runs = []
+    self._reads = []
+    self._last = []
     self._selfclear = []
     self._drivers = drivers
     self.n_aliased = 0
@@ -1616,6 +1618,8 @@ class Simulator:
     pid = len(self.procs)
     self.procs.append(Proc(pid, kind, None, where))
     self._runs.append(None)
+    self._reads.append(())
+    self._last.append(None)
     self._selfclear.append(False)
     self.inq.append(0)
     return pid
@@ -1626,6 +1630,7 @@ class Simulator:
     self._runs[pid] = run
     self._selfclear[pid] = selfclear
     if p.kind != "ff":
+      self._reads[pid] = tuple(sorted(self.comp.reads, key=lambda y: y.path))
       for sym in self.comp.reads:
         if pid not in sym.readers:
           sym.readers.append(pid)
@@ -1721,6 +1726,8 @@ class Simulator:
     inq = self.inq
     runs = self._runs
     selfclear = self._selfclear
+    reads = self._reads
+    last = self._last
     nba = self.nba
     n = 0
     limit = self._limit
@@ -1730,9 +1737,19 @@ class Simulator:
         if not inq[p]:
           continue
         inq[p] = 0
+        # sensitivity is kept per variable, so a process is also woken by a glitch on another element of an array it
+        # reads (a block that assigns an element twice); it only runs if something it reads differs from what it saw
+        # after its last run.  (A combinational process is a function of the variables it reads.)
+        rs = reads[p]
+        cur = [y.vals[:] for y in rs]
+        if last[p] is not None and last[p] == cur:
+          continue
         runs[p]()
         if selfclear[p]:
           inq[p] = 0
+          last[p] = [y.vals[:] for y in rs]     # always_comb is not sensitive to its own writes
+        else:
+          last[p] = cur                          # a continuous assignment is (assign x = ~x must not settle)
         n += 1
         if n > limit:
           q.clear()
